@@ -42,7 +42,7 @@ Definition C02_full_statement : Prop :=
 (* non-vacuity: repeated build runs nothing; a dropped dependency no longer triggers *)
 Example C02_example :
   let mk deps p := {| s_deps := deps; s_ifcreate := []; s_always := false; s_stamp := false;
-                      s_out := OStdout; s_payload := p; s_cat := false; s_exit := 0%Z |} in
+                      s_out := OStdout; s_payload := p; s_cat := false; s_exit := 0%Z; s_tol := false |} in
   let a := [97] in let b := [98] in let t := [116] in
   let h := [SWrite a [1]; SWrite b [1]; SWriteDo (t ++ b_do) (mk [a; b] 5);
             SCmd (CIfChange false [t]); SCmd (CIfChange false [t]);
